@@ -8,4 +8,12 @@ def generate_all():
     with C.Lock("gen"):
         from tools import constgen
         info["consts"] = constgen.generate()
+        from tools import envgen
+        info["envtable"] = envgen.generate()
+        from tools import asmgen
+        info["fcontext"] = asmgen.generate()
+        from tools import poolgen
+        info["poolends"] = poolgen.generate()
+        from tools import laddergen
+        info["ladders"] = laddergen.generate()
     return info
